@@ -1550,6 +1550,12 @@ impl ContinuityStreamCache {
         }
 
         // Forward scan from a nearby seek point, capturing only message + run_ended events in-range.
+        #[cfg(rip_verif)]
+        rip_kernel::verif::point(if from_seq / SEEK_INDEX_STRIDE_EVENTS_V1 != start_seq / SEEK_INDEX_STRIDE_EVENTS_V1 {
+            "path.full_sidecar_window.across_index_stride"
+        } else {
+            "path.full_sidecar_window.within_index_stride"
+        });
         let start_offset = best_offset_for_seq(&seq_index, start_seq);
         let mut file = File::open(sidecar_path)?;
         file.seek(SeekFrom::Start(start_offset))?;
